@@ -92,6 +92,7 @@ def check_parser(ctx: Ctx, modname: str, fname: str, file: str) -> None:
     model = ctx.model
     fn = model.func(f"{modname}.{fname}")
     g = G.load(model, modname)
+    G.report_options(ctx, "C11.pure", g, file)
     problems: List[str] = []
 
     def run(ch: Chooser):
